@@ -10,7 +10,7 @@
    The statements hold for every logarithm / power function [lg], [ex] plugged into the model. *)
 From Coq Require Import ZArith List Bool Lia.
 Import ListNotations.
-From Osmo Require Import Base.DecModel Gen.C10_consts C10.Model C10.LogExp C10.Spec C10.ProofsList C10.ProofsChain C10.ProofsTwap C10.ProofsLog C10.ProofsFull.
+From Osmo Require Import Base.DecModel Gen.C10_consts C10.Model C10.LogExp C10.Spec C10.ProofsList C10.ProofsChain C10.ProofsTwap C10.ProofsLog C10.ProofsFull C10.Lift C10.Corr C10.CorrLink.
 Open Scope Z_scope.
 
 (* arithmetic TWAP = the code's rounding (truncating division) of  sum p_i * dt_i / (end - start), for every history,
@@ -133,6 +133,46 @@ Print Assumptions C10_geom_full_refuted.
 Theorem C10_answers_full_refuted : ~ C10_answers_full twap_log exp2.
 Proof. exact answers_full_refuted. Qed.
 Print Assumptions C10_answers_full_refuted.
+
+(* ---- the module as a whole ----
+   [grun lg (ginit t0 h0 limit keep_period) zero_time ops = (st, km)]: the module state after any sequence of pool creations,
+   price-affecting operations (trackChangedPool), block ends (EndBlock over the changed pools, then the pruning pass with its
+   per-block limit), pruning-state settings and epoch hooks; km = the largest keep time ever put into the pruning state.
+   Every pair of every reachable state is the result of a well-formed pair history, so all theorems above apply to it. *)
+Theorem C10_module_pair_history : forall lg ops t0 h0 limit kp st km id k p,
+  zero_time <= t0 -> positive_dts ops -> grun lg (ginit t0 h0 limit kp) zero_time ops = (st, km) ->
+  pair_of st id k = Some p ->
+  exists tc hc w0 w1 evs G, history lg tc hc w0 w1 evs p G /\
+    (forall keep b, In (PPrune keep b) evs -> keep <= km) /\ r_time (p_recent p) <= s_now st.
+Proof. exact module_pair_history. Qed.
+Print Assumptions C10_module_pair_history.
+
+Theorem C10_module_query_is_pair_query : forall lg ex st id k q0 geom tonow start stop f v,
+  query lg ex st (QPair id k q0) geom tonow start stop = QVal f v ->
+  exists p, pair_of st id k = Some p /\
+    twap_between lg ex (s_now st) p q0 geom start (if tonow then s_now st else stop) = QVal f v.
+Proof. exact module_query_pair. Qed.
+Print Assumptions C10_module_query_is_pair_query.
+
+(* the flagship statement on the module model: GetArithmeticTwap(+ToNow) = truncated time-weighted mean, for every module
+   history and every interval starting at or after every keep time (creation of the pair included: an answered query
+   cannot start before it) *)
+Theorem C10_module_arith_eq_weighted_mean : forall lg ex ops t0 h0 limit kp st km id k q0 tonow start stop f v,
+  zero_time <= t0 -> positive_dts ops -> grun lg (ginit t0 h0 limit kp) zero_time ops = (st, km) ->
+  query lg ex st (QPair id k q0) false tonow start stop = QVal f v ->
+  km <= start ->
+  let stop' := if tonow then s_now st else stop in
+  ms start < ms stop' ->
+  exists tc hc w0 w1 evs p G, pair_of st id k = Some p /\ history lg tc hc w0 w1 evs p G /\
+    v = Z.quot (integral (price_at (spec_events tc w0 w1 evs) q0 0) (ms start) (ms stop')) (ms stop' - ms start).
+Proof. exact module_arith_eq_weighted_mean. Qed.
+Print Assumptions C10_module_arith_eq_weighted_mean.
+
+(* the transitions and answers evaluated by the correspondence check are these very functions *)
+Theorem C10_corresponded_model : forall lg ex g st o,
+  fst (step lg ex g st o) = match gop_of o with Some go => gstep lg st go | None => st end.
+Proof. exact step_is_gstep. Qed.
+Print Assumptions C10_corresponded_model.
 
 (* non-vacuity: a pool at price 2 / 0.5, moved to 3 / 0.333 after 10 s and to 1.5 / 0.666 after 15 s, pruned with keep
    time 12 s; the interval [13 s, 21 s] is answered with the mean (2*3 s... ) computed below *)
